@@ -1011,6 +1011,18 @@ def uda_producer_turned_injector(case, wn):
     return False
 
 
+def weltarg_after_uda(case, wn):
+    """WCONPROD / WCONINJE of well wn with a UDQ-valued item, later a WELTARG for the well (in any later keyword)"""
+    uda = False
+    for b in case.get("blocks", []):
+        for k in b["kws"]:
+            if k.startswith(("WCONPROD\n '%s' " % wn, "WCONINJE\n '%s' " % wn)) and re.search(r"'[FW]U_\w+'", k):
+                uda = True
+            if k.startswith("WELTARG\n '%s' " % wn) and uda:
+                return True
+    return False
+
+
 def wlist_reentry(case):
     """does some well re-enter a well list it was a member of and left (DEL, MOV away, NEW without it) earlier, or is it
     deleted again from a list it has already left?  (both make WListManager's per-well list count go wrong)"""
@@ -1065,6 +1077,12 @@ def key_B(attr, x, y, case, state=None, path="", other=None):
         if len(parts) > 1 and parts[1] in misassigned_uda_wells(state, other):
             return "B:uda-applied-to-wrong-well"
     """stable finding key: the attribute, except where one root cause shows under several attributes"""
+    mu = re.match(r"well\.(prod|inj)_udq\.\w+$", attr)
+    if mu and x == "<absent>" and isinstance(y, str) and y != "<absent>":
+        # the restarted run has a UDQ-valued limit the original run no longer has, on a well whose UDA limit was hit by WELTARG
+        wname = path.strip("/").split("/")[1]
+        if weltarg_after_uda(case, wname):
+            return "B:uda-resurrected-by-weltarg-record"
     lim = re.match(r"well\.(prod|inj)Controls\.(oil_rate|water_rate|gas_rate|liquid_rate|resv_rate|surface_rate|reservoir_rate)$", attr)
     if isinstance(x, str) and HEXRE.match(x):
         x = hexf(x)
